@@ -48,7 +48,8 @@ def load_results(path):
     """trace file of `phyclone run` -> [(dict key, chain_num carried in the result, canonical trace, samples)] in dict order"""
     with gzip.GzipFile(path, "rb") as fh:
         results = pickle.load(fh)
-    return [[int(k), int(v["chain_num"]), canon_trace(v["trace"]), [str(s) for s in v["samples"]]] for k, v in results.items()]
+    out = [[int(k), int(v["chain_num"]), canon_trace(v["trace"]), [str(s) for s in v["samples"]]] for k, v in results.items()]
+    return json.loads(json.dumps(out))  # tuples -> lists, as in the reference's JSON
 
 
 def main(spec_path, out_path):
